@@ -29,6 +29,8 @@ import json
 import os
 import random
 import re
+import threading
+import types
 from collections import Counter
 
 from vlib import core
@@ -747,7 +749,8 @@ def correspond(res, n, dm, n_fault):
     single_keys = gen_norm_keys(random.Random(res.seed * 7919 + 1803), dm)
     norm_keys = list(dict.fromkeys(
         [bytes.fromhex(c[k]['hex']) for c in cases if c['kind'] == 'honest' and not is_fault_case(c)
-         and is_bytes_key(c.get('kl')) and is_bytes_key(c.get('kc')) for k in ('kl', 'kc')] + single_keys))
+         and is_bytes_key(c.get('kl')) and is_bytes_key(c.get('kc')) for k in ('kl', 'kc')]
+        + [bytes.fromhex(c['key']['hex']) for c in cases if c['kind'] in ('replayL', 'replayC')] + single_keys))
     h1_msg = rbytes(random.Random(res.seed * 7919 + 1804), 20)
     cases, outs, aux, nf = run_impl(cases, dm, aux=True, norm=[(k, h1_msg) for k in norm_keys])
     facts = dict(zip(norm_keys, nf))
@@ -762,6 +765,17 @@ def correspond(res, n, dm, n_fault):
             if a['signature'] not in seen or len(res.alarms) < 40:
                 res.alarms.append(a)
             seen.add(a['signature'])
+    # key normalisation: its own coqc process, concurrently with the case evaluation below
+    nres = types.SimpleNamespace(alarms=[], broken=[], tier=res.tier, cov=None)
+
+    def norm_job():
+        try:
+            nres.cov = correspond_norm(nres, cases, outs, single_keys, facts, dm)
+        except Exception as exc:      # noqa: must not look like a pass
+            nres.broken.append(dict(kind='check-crashed', name='key normalisation check: ' + type(exc).__name__,
+                                    detail=str(exc)[-2000:]))
+    nthread = threading.Thread(target=norm_job)
+    nthread.start()
     terms = [to_coq(c, o) for c, o in zip(cases, outs)]
     # chunks balanced by size (huge keys make huge terms)
     chunks, cur, size = [], [], 0
@@ -784,7 +798,10 @@ def correspond(res, n, dm, n_fault):
         else:
             res.broken.append(dict(kind='correspondence', name='Auth model vs real handshake (bytes on the wire)',
                                    detail='case %s | impl %s' % (brief(c), brief_obs(o))))
-    norm_cov = correspond_norm(res, cases, outs, single_keys, facts, dm)
+    nthread.join()
+    res.alarms += nres.alarms
+    res.broken += nres.broken
+    norm_cov = nres.cov or {}
     # facts outside the model
     refused = dict(session1=['returned', 'returned'], session2='AuthenticationError', fresh_challenge=True)
     expect = dict(process_authkey_is_bytes=True, authstr_pickle_outside_spawn='TypeError',
